@@ -391,7 +391,8 @@ fn run_m(opts: &Opts, body: &str) -> (String, String) {
     let (path, rest) = body.split_once(':').expect("M body");
     let msgs: Vec<Vec<u32>> = rest.split(',').filter(|s| !s.is_empty()).map(nibbles).collect();
     let relaxed = opts.relaxed;
-    let path = path.to_string();
+    let compact = path.starts_with('v');
+    let path = path.trim_start_matches('v').to_string();
     let r = std::panic::catch_unwind(move || {
         let mut o = String::new();
         let mut plane: Option<Plane> = None;
@@ -416,7 +417,12 @@ fn run_m(opts: &Opts, body: &str) -> (String, String) {
             if k > 0 {
                 o.push('#');
             }
-            dump_row(plane.as_ref().unwrap(), Utc::now(), &mut o);
+            if compact {
+                let p = plane.as_ref().unwrap();
+                write!(o, "trk={} gs={} vr={}", oq(&p.track), oq(&p.grspeed), oq(&p.vrate)).unwrap();
+            } else {
+                dump_row(plane.as_ref().unwrap(), Utc::now(), &mut o);
+            }
         }
         o
     });
